@@ -67,7 +67,7 @@ def collide(g, form):
 
 @st.composite
 def _cases(draw):
-    prof = dict(gen.PROFILES["struct"], p_repeat_count=0.6, p_or_other=0.3, p_default=0.3, p_trigger=0.15, p_meta=0.2,
+    prof = dict(gen.PROFILES["struct"], p_reuse_names=0.25, p_repeat_count=0.6, p_or_other=0.3, p_default=0.3, p_trigger=0.15, p_meta=0.2,
                 p_entities=0.25, p_table_list=0.12, p_external=0.05)
     g = gen.G(draw, prof)
     form = gen.build_form(draw, prof, g=g)
